@@ -127,6 +127,18 @@ def gen():
     }
     for k, body in two.items():
         conflicts.append((f"two-paths|{k}", f"    let mut v = mk();\n    {body}"))
+    # items yielded by a range iterator must not outlive it (its drop moves the tail over their slots)
+    outlive = {
+        "drain.item-outlives-iterator": "let e = v.drain(0..1).next().unwrap();\n    sink(e.size());",
+        "drain.item-outlives-iterator(block)": "let e = { let mut d = v.drain(..); d.next().unwrap() };\n    sink(e.size());",
+        "drain.item-then-use-source": "let mut d = v.drain(0..1);\n    let e = d.next().unwrap();\n    drop(d);\n    v.push(W::new(String::from(\"z\")));\n    sink(e.size());",
+        "splice.item-outlives-iterator": "let e = v.splice(0..1, [W::new(String::new())]).next().unwrap();\n    sink(e.size());",
+        "iter_mut.item-then-mutate-source": "let mut e = v.iter_mut().next().unwrap();\n    v.clear();\n    sink(e.size());",
+        "iter.item-then-mutate-source": "let e = v.iter().next().unwrap();\n    v.clear();\n    sink(e.size());",
+    }
+    for k, body in outlive.items():
+        conflicts.append((f"yielded-item|{k}", f"    let mut v = mk();\n    {body}"))
+    controls.append(("yielded-item|inside-iterator", "    let mut v = mk();\n    { let mut d = v.drain(0..2); let e = d.next().unwrap(); sink(e.size()); drop(e); }\n    sink(v.len());"))
     controls.append(("two-paths|sequential", "    let mut v = mk();\n    { let mut a = v.at_mut(0); a.downcast_mut::<String>().unwrap().push('1'); }\n    { let mut b = v.at_mut(0); b.downcast_mut::<String>().unwrap().push('2'); }\n"
                      "    { let mut t = v.downcast_mut::<String>().unwrap(); t.at_mut(0).push('3'); t.at_mut(0).push('4'); t.push(String::new()); }\n    sink(v.len());"))
     controls.append(("shared|two-readers", "    let v = mk();\n    let a = v.at(0);\n    let b = v.at(0);\n    let c = a.clone();\n    let mut i = v.iter();\n    let j = i.clone();\n    sink((a.size(), b.size(), c.size(), i.len(), j.len()));"))
